@@ -202,7 +202,11 @@ pub fn run(ctx: &Ctx) -> Report {
                 }
             }
             // to_code_const -> from_code_const keeps the codewords
-            let params: Vec<usize> = (0..=12).collect();
+            let mut params: Vec<usize> = (0..=70).collect();
+            for i in 7..=40u32 {
+                let p = 1usize << i;
+                params.extend([p - 1, p, p + 1]);
+            }
             for c in all_variants(&params) {
                 if !writable(&c) {
                     continue;
